@@ -22,8 +22,13 @@ FIRST_TRY = {'C01': True, 'C02': True, 'C03': False, 'C04': True, 'C05': False, 
              'C18f': True, 'C19f': False, 'C20f': True,
              'C01g': True, 'C02g': False, 'C03g': False, 'C04g': True, 'C05g': False, 'C06g': True, 'C07g': True, 'C08g': False, 'C09g': True,
              'C10g': False, 'C11g': True, 'C12g': True, 'C13g': False, 'C14g': True, 'C15g': True, 'C16g': False, 'C17g': False,
-             'C18g': True, 'C19g': False, 'C20g': True}
+             'C18g': True, 'C19g': False, 'C20g': True,
+             'C01h': True, 'C02h': True, 'C03h': False, 'C04h': False, 'C05h': True, 'C06h': True, 'C07h': True, 'C08h': False, 'C09h': True,
+             'C10h': True, 'C11h': True, 'C12h': False, 'C13h': True, 'C14h': True, 'C15h': True, 'C16h': False, 'C17h': False,
+             'C18h': False, 'C19h': False, 'C20h': True}
 REJECTED = {
+    'C18h': 'superseded: caught by C18 (send:Updates:over) until repair e4f0c24 moved the counting to write time; since then the '
+            'change is consistent with the statistic and no longer a C18 violation',
     'C13c': 'not confirmed: the change only matters when dataReceived() is called again after the agent\'s own '
             'transport.loseConnection(); Twisted\'s TCP transport stops reading at that point (FileDescriptor.loseConnection -> '
             'stopReading), so the changed and the original code behave identically under the real runtime. The sub-agent\'s '
@@ -70,6 +75,14 @@ STRENGTHEN = {
     'C16g': 'sessions whose local speaker is configured without the 4-octet-AS capability while the peer advertises it (2-octet encoding on the wire)',
     'C17g': 'community lists at the one-octet length edges: 15/16/31 extended, 31/32/63 standard, 10/11/21 large communities',
     'C19g': 'the same prefix listed twice in one UPDATE; a version counter may not increase more often than routes changed',
+    'C03h': 'hold times of every residue mod 3 (5, 8, 20, 65534 and random 3..400): H/3 is not always a whole number of seconds',
+    'C04h': 'streams of 300 / 1100 / 3000 messages delivered in one segment and cut in several ways',
+    'C08h': 'nlri / withdraw lists containing something that is not an IPv4 prefix (IPv6 prefixes, out-of-range lengths, junk): refused, or built well-formed.  This exposed a genuine defect (F059: ::1/128 was written as a malformed IPv4 prefix); after its repair the seeded patch was rebased to remove the new check (original kept as patch.orig.diff)',
+    'C12h': 'configuration hold_time 65536 (the OPEN cannot be built, the session never leaves Connect although TCP is up) added to the walk configurations',
+    'C16h': 'credential cases wrong user + empty password, both empty, wrong user + "None"',
+    'C17h': 'extended-community lists of 32 and 40 elements (more than a one-octet length holds): refusing them is accepted, the requests that follow in the same process must still be answered correctly',
+    'C18h': 'REST sends whose hand-over to the reactor is carried out only after the next event (rest-update-late / rest-bin-late).  On the unchanged tree this exposed a genuine defect (F060: counted when queued, lost when the peer closes first); after the repair (count at write time) the seeded change no longer breaks C18 - it drops exactly the messages that are not counted any more - and is kept for the record only',
+    'C19h': 'MP_REACH and MP_UNREACH of one family in one UPDATE / REST request (operation mp-both), also in the exhaustive alphabet',
     'C16c': 'send cases now run with [bgp] rib on or off and with 0-2 earlier announcements on the same session whose prefixes the checked request may withdraw or re-announce (a withdraw list mixing announced and never-announced prefixes is the trigger)',
     'C19c': 'new operation: one peer UPDATE that carries IPv4 withdrawn routes together with a flowspec / VPNv4 MP_REACH or MP_UNREACH attribute; both parts must be applied (patch rebased onto the current tree because a later fix touched the same lines; original kept as patch.orig.diff)',
     'C20c': 'the peer address as configured became a dimension (IPv4, lower-case IPv6, upper-case IPv6) and a handler callback that raises is now a violation (event not logged) instead of a harness error',
@@ -100,7 +113,7 @@ def main():
     with open(os.path.join(HERE, 'seeded', 'INDEX.md'), 'w') as f:
         f.write('# Seeded changes (written by fresh sub-agents that saw only the property text)\n\n'
                 'Round 1: one change per property (C01..C20). Round 2 (ids ending in b): a second, different change for all twenty\n'
-                'properties. Rounds 3 to 6 (ids ending in c / d, e, f and g): further ones, the sub-agent being told what the earlier rounds had changed.\n'
+                'properties. Rounds 3 to 7 (ids ending in c / d, e, f, g and h): further ones, the sub-agent being told what the earlier rounds had changed.\n'
                 'Each directory holds patch.diff, the agent\'s demo.py, meta.json (incl. what the verifier ran) and\n'
                 'result.txt; `tools/try_seed.sh <id>` re-runs the confirmation on scratch copies of /repo.\n\n'
                 '| id | change | needs | caught on first run | final check result |\n|---|---|---|---|---|\n')
